@@ -67,6 +67,10 @@ extern "C" void harness_formatter(void) {
   f->fIsXML11 = xml11; f->fMemoryManager = &mm;
   XMLCh* in = (XMLCh*)malloc(N * sizeof(XMLCh)); VX_ASSUME(in != 0);
   XMLCh c[N]; for (int i = 0; i < N; i++) { c[i] = nondet_u16(); in[i] = c[i]; }
+#ifdef PAIR
+  // this variant: the buffer is exactly one supplementary character (a surrogate pair), the case the single-unit quick harness cannot hold
+  VX_ASSUME(c[0] >= 0xD800 && c[0] <= 0xDBFF && c[1] >= 0xDC00 && c[1] <= 0xDFFF);
+#endif
   // well-formed UTF-16 only (ill-formed input is the subject of the known finding below, not of the output equation)
   for (int i = 0; i < N; i++) {
     bool lead = c[i] >= 0xD800 && c[i] <= 0xDBFF, trail = c[i] >= 0xDC00 && c[i] <= 0xDFFF;
@@ -94,7 +98,11 @@ extern "C" void harness_formatter(void) {
 #else
   if (c[0] >= 0x80) VX_REACH("unrepresentable character written as a reference");
 #endif
+#ifdef PAIR
+  if (mode == XMLFormatter::NoEscapes && xml11) VX_REACH("pair written in NoEscapes mode, XML 1.1");
+#else
   if (c[0] == '<' && mode != XMLFormatter::NoEscapes) VX_REACH("markup character escaped");
   if (xml11 && c[0] == 0x1 && mode == XMLFormatter::CharEscapes) VX_REACH("XML 1.1 control character written as a reference");
+#endif
   free(in);
 }
